@@ -147,6 +147,10 @@ def _get_initial_guess(
     if isinstance(init, Sequence) and not isinstance(init, str):
         return ttb.ktensor(init).normalize("all")
     if isinstance(init, ttb.ktensor):
+        if init.shape != data.shape or init.ncomponents != rank:
+            raise ValueError(
+                "Initial guess must have the shape of the data and rank components"
+            )
         init.normalize("all")
         return init
     if init == "random":
